@@ -462,8 +462,19 @@ def counted_while(st):
     return None
 
 
+_STORED = {}
+
+
+def _stored_names(fn):
+    """names of `fn` that are the base of a subscript store (`X[i] = v`, `X[i] += v`)"""
+    k = id(fn)
+    if k not in _STORED:
+        _STORED[k] = (fn, frozenset(n.value.id for n in ast.walk(fn) if isinstance(n, ast.Subscript) and isinstance(n.ctx, ast.Store) and isinstance(n.value, ast.Name)))
+    return _STORED[k][1]
+
+
 class Ev3(AutoEvaluator):
-    hooks = ()                # call hooks tried in order before array_call
+    hooks = ()              # call hooks tried in order before array_call
     sub_hooks = ()            # subscript hooks tried before array_subscript
     raise_only = frozenset()  # ids of `if` tests whose true arm only raises
 
@@ -864,9 +875,20 @@ class Ev3(AutoEvaluator):
         if len(node.args) > len(params):
             return NotImplemented
         env = {}
+        kwonly = [x.arg for x in a.kwonlyargs]
+        # a freshly allocated local array of the caller that the callee fills through its parameter (`a = np.empty(...); helper(..., a)`): from here on the
+        # caller's name denotes an array object of its own, so that the callee's stores are stores into it
+        filled = _stored_names(fn)
+        for p_, x in list(zip(params, node.args)) + [(k.arg, k.value) for k in node.keywords]:
+            if p_ in filled and isinstance(x, ast.Name) and x.id not in self.buffers and x.id not in self.pinned and x.id in self.env:
+                cur = self.env[x.id]
+                u = unfn(cur) if (cur is not None and not is_unknown(cur) and not isinstance(cur, (tuple, DictValue))) else None
+                if u and u[0] in ("empty", "zeros"):
+                    self.buffers.add(x.id)
+                    self.env["<init:%s>" % x.id] = cur
+                    del self.env[x.id]
         for p_, x in zip(params, node.args):
             env[p_] = self.ev(x)
-        kwonly = [x.arg for x in a.kwonlyargs]
         for k in node.keywords:
             if k.arg not in params and k.arg not in kwonly:
                 return NotImplemented
